@@ -1053,6 +1053,18 @@ class Exec:
         return IntV(zint(self.ev(e.args[0], p), self, p))
 
     def builtin_min(self, e, p):
+        if e.keywords:
+            # k = min(d, key=d.get): some key of the non-empty dict d whose value is least (which one among equals is not fixed)
+            kw = e.keywords[0]
+            d = self.ev(e.args[0], p) if len(e.args) == 1 else None
+            if not (len(e.keywords) == 1 and kw.arg == 'key' and isinstance(d, DictV) and d.kkind == 'int' and d.vkind == 'int'
+                    and isinstance(kw.value, ast.Attribute) and kw.value.attr == 'get'
+                    and ast.dump(kw.value.value) == ast.dump(e.args[0])):
+                raise Unsupported(f'min with key@{e.lineno}')
+            self.oblige(p, f'min-of-nonempty@{e.lineno}', nonempty(d), e.lineno)
+            k, j = fresh('argmin'), z3.Int('j!min')
+            self.assume(p, And(d.has[k], z3.ForAll([j], z3.Implies(d.has[j], d.val[k] <= d.val[j]), patterns=[d.has[j]])))
+            return IntV(k)
         args = [zint(self.ev(a, p), self, p) for a in e.args]
         z = args[0]
         for a in args[1:]:
@@ -1146,6 +1158,11 @@ class Exec:
                 return r
             if isinstance(v, ObjV) and v.cls == 'mapabs':
                 return self.set_of_mapabs_filter(v, p, e.lineno)
+            if isinstance(v, FieldV) and v.attr == 'vars':
+                # set(bdd.vars): the declared names at this moment (a new object, not a view)
+                r = SetV(p.mgrs[v.mkey].vin, 'name')
+                self.assume(p, z3.ForAll([M._n], z3.Implies(r.has[M._n], r._ne), patterns=[r.has[M._n]]))
+                return r
             raise Unsupported('set(x)')
         return SetV(K(I, BoolVal(False)))
 
@@ -2171,7 +2188,7 @@ class Exec:
             elem = lambda iv: IntV(iv)  # noqa
         else:
             seq = self.ev(it, p)
-            if isinstance(seq, SetV) and seq.kkind == 'int' and isinstance(it, (ast.Name, ast.Attribute)):
+            if isinstance(seq, SetV) and seq.kkind in ('int', 'name') and isinstance(it, (ast.Name, ast.Attribute)):
                 itname = ast.unparse(it)
                 for n_ in ast.walk(ast.Module(body=st.body, type_ignores=[])):
                     if isinstance(n_, (ast.Name, ast.Attribute)) and ast.unparse(n_) == itname:
